@@ -618,6 +618,8 @@ func c18SingleRoot(c *Ctx) {
 		if f, ok := stateField(cond); ok {
 			if taken == neg { // the state is false on this edge
 				st.Flags["first:"+f] = 1
+			} else {
+				st.Flags["true:"+f] = 1
 			}
 			return
 		}
@@ -670,9 +672,27 @@ func c18SingleRoot(c *Ctx) {
 				set = true
 			}
 		}
+		// an entry that is not the first one lies below the root: only if the root was found to be a
+		// directory (a second state field of the decoder, found true on this path)
+		if first == "" {
+			below := false
+			for k := range st.Flags {
+				if strings.HasPrefix(k, "true:") {
+					for k2 := range st.Flags {
+						if strings.HasPrefix(k2, "true:") && k2 != k {
+							below = true // "an entry was decoded" and "the root is a directory"
+						}
+					}
+				}
+			}
+			if !below {
+				bad = append(bad, fmt.Sprintf("return at %s yields a node for an entry that follows the root although the root was not found to be a directory: after a symlink root the entry is created through the link, outside the destination (trail tail %s)", c.pos(ret.Pos()), tailOf(st.Trail, 6)))
+				return
+			}
+		}
 		if st.Flags["named"] != 1 && st.Flags["nonempty"] != 1 && first == "" {
 			bad = append(bad, fmt.Sprintf("return at %s yields a node for an entry without a filename although it need not be the first entry of the archive (trail tail %s)", c.pos(ret.Pos()), tailOf(st.Trail, 6)))
-		} else if !set {
+		} else if first != "" && !set { // (a later entry found the state set already)
 			bad = append(bad, fmt.Sprintf("return at %s yields a node without recording that an entry was decoded: the next entry without a filename would be taken for the root again", c.pos(ret.Pos())))
 		}
 	}
